@@ -193,3 +193,6 @@ def install(symbolic: bool = True):
                 if "unpack" in d:
                     d["unpack"] = _text.sym_unpack
     INSTALLED = True
+    from . import globalsnap
+
+    globalsnap.init()
